@@ -6,7 +6,8 @@ use crate::mon::{guard, h2, par_shards, Ctx, Local, Outcome, Report};
 use crate::refcal as rc;
 use crate::refinst::{self as ri, RDt};
 use crate::rng::Rng;
-use chrono::{DateTime, Datelike, Days, FixedOffset, MappedLocalTime, Months, NaiveTime, TimeZone, Timelike, Utc};
+use crate::zones::{step_candidates, step_off, StepTz, STEP_T0, STEP_T1};
+use chrono::{DateTime, Datelike, Days, FixedOffset, MappedLocalTime, Months, NaiveTime, TimeDelta, TimeZone, Timelike, Utc};
 use serde_json::{json, Value};
 use std::collections::hash_map::DefaultHasher;
 use std::hash::{Hash, Hasher};
@@ -652,53 +653,6 @@ fn all_on_value(loc: &mut Local, x: &Ix, rng: &mut Rng, z: Z) {
     }
 }
 
-/// A zone whose offset changes (through the public `TimeZone` trait): +01:00 before
-/// 2021-03-28T01:00Z, +02:00 until 2021-10-31T01:00Z, +01:00 afterwards. Stepping and field
-/// replacement must act on the wall clock and re-resolve it in the zone; with `FixedOffset` alone an
-/// implementation that steps the UTC value and re-derives the offset is indistinguishable.
-#[derive(Clone, Copy, Debug)]
-struct StepTz;
-const STEP_T0: i64 = 1_616_893_200; // 2021-03-28T01:00:00Z  (gap: wall 02:00..03:00 skipped)
-const STEP_T1: i64 = 1_635_642_000; // 2021-10-31T01:00:00Z  (fold: wall 02:00..03:00 twice)
-fn step_off(u: i64) -> i32 {
-    if (STEP_T0..STEP_T1).contains(&u) {
-        7200
-    } else {
-        3600
-    }
-}
-fn step_candidates(l: i64) -> Vec<i32> {
-    let mut c: Vec<i32> = [3600, 7200].into_iter().filter(|o| step_off(l - *o as i64) == *o).collect();
-    c.sort_by_key(|o| l - *o as i64);
-    c
-}
-impl TimeZone for StepTz {
-    type Offset = FixedOffset;
-    fn from_offset(_: &FixedOffset) -> Self {
-        StepTz
-    }
-    #[allow(deprecated)]
-    fn offset_from_local_date(&self, local: &chrono::NaiveDate) -> MappedLocalTime<FixedOffset> {
-        self.offset_from_local_datetime(&local.and_time(NaiveTime::MIN))
-    }
-    fn offset_from_local_datetime(&self, local: &chrono::NaiveDateTime) -> MappedLocalTime<FixedOffset> {
-        let c = step_candidates(local.and_utc().timestamp());
-        let fo = |o: i32| FixedOffset::east_opt(o).unwrap();
-        match c.len() {
-            0 => MappedLocalTime::None,
-            1 => MappedLocalTime::Single(fo(c[0])),
-            _ => MappedLocalTime::Ambiguous(fo(c[0]), fo(c[1])),
-        }
-    }
-    #[allow(deprecated)]
-    fn offset_from_utc_date(&self, utc: &chrono::NaiveDate) -> FixedOffset {
-        self.offset_from_utc_datetime(&utc.and_time(NaiveTime::MIN))
-    }
-    fn offset_from_utc_datetime(&self, utc: &chrono::NaiveDateTime) -> FixedOffset {
-        FixedOffset::east_opt(step_off(utc.and_utc().timestamp())).unwrap()
-    }
-}
-
 fn phase_step_zone(ctx: &Ctx, rep: &Report, bk: usize) {
     let n = ctx.n(60_000, 3_000_000);
     par_shards(rep, ctx.threads, 16, |shard| {
@@ -766,6 +720,59 @@ fn phase_step_zone(ctx: &Ctx, rep: &Report, bk: usize) {
                         }
                     }
                     Err(p) => loc.violation(&format!("C04/variable-offset-zone/{}/panic@{}", name, p.site()), json!({"utc": u, "panic": p.to_json()})),
+                }
+            }
+            // elapsed-time arithmetic through the zone: every form denotes the instant u + δ and must
+            // show it with the offset in force *there* (checked, operator and assigning forms alike)
+            let delta = match rng.below(3) {
+                0 => rng.range(-7300, 7300),
+                1 => rng.range(-3 * 86_400, 3 * 86_400),
+                _ => rng.range(-400, 400) * 86_400 + rng.range(-4000, 4000),
+            };
+            let (td, ntd) = (TimeDelta::seconds(delta), TimeDelta::seconds(-delta));
+            let sd = std::time::Duration::from_secs(delta.unsigned_abs());
+            type Form = (&'static str, Box<dyn Fn(DateTime<StepTz>) -> Option<DateTime<StepTz>>>);
+            let mut forms: Vec<Form> = vec![
+                ("checked_add_signed", Box::new(move |x| x.checked_add_signed(td))),
+                ("checked_sub_signed", Box::new(move |x| x.checked_sub_signed(ntd))),
+                ("add-TimeDelta", Box::new(move |x| Some(x + td))),
+                ("sub-TimeDelta", Box::new(move |x| Some(x - ntd))),
+                ("add_assign-TimeDelta", Box::new(move |mut x| {
+                    x += td;
+                    Some(x)
+                })),
+                ("sub_assign-TimeDelta", Box::new(move |mut x| {
+                    x -= ntd;
+                    Some(x)
+                })),
+            ];
+            if delta >= 0 {
+                forms.push(("add-std-Duration", Box::new(move |x| Some(x + sd))));
+                forms.push(("add_assign-std-Duration", Box::new(move |mut x| {
+                    x += sd;
+                    Some(x)
+                })));
+            } else {
+                forms.push(("sub-std-Duration", Box::new(move |x| Some(x - sd))));
+                forms.push(("sub_assign-std-Duration", Box::new(move |mut x| {
+                    x -= sd;
+                    Some(x)
+                })));
+            }
+            for (name, f) in forms {
+                let (eu, eo) = (u + delta, step_off(u + delta));
+                match guard(|| f(dt)) {
+                    Ok(Some(r)) => {
+                        let rw = guard(|| r.naive_local().and_utc().timestamp()).ok();
+                        if r.timestamp() != eu || r.offset().local_minus_utc() != eo || rw != Some(eu + eo as i64) {
+                            loc.violation(
+                                &format!("C04/variable-offset-zone/{}/result-not-shown-with-the-offset-in-force-at-the-new-instant", name),
+                                json!({"utc": u, "delta_s": delta, "expected_utc": eu, "expected_offset": eo, "observed_utc": r.timestamp(), "observed_offset": r.offset().local_minus_utc(), "observed_wall": rw}),
+                            );
+                        }
+                    }
+                    Ok(None) => loc.violation(&format!("C04/variable-offset-zone/{}/refused-mid-range", name), json!({"utc": u, "delta_s": delta})),
+                    Err(p) => loc.violation(&format!("C04/variable-offset-zone/{}/panic@{}", name, p.site()), json!({"utc": u, "delta_s": delta, "panic": p.to_json()})),
                 }
             }
             loc.nontrivial(h2(91, h2(u as u64, (nd * 31 + nm as u64) * 24 + hh as u64)));
